@@ -14,13 +14,13 @@
 (*    decides the verdict of the checks.                                   *)
 (* m.bad is the set of names of the clauses violated so far.               *)
 (***************************************************************************)
-EXTENDS Integers, Sequences, FiniteSets
+EXTENDS Integers, Sequences, FiniteSets, Waits
 
 CONSTANTS MinDelay,     \* MIN_DELAY_BETWEEN_RAS   (trace: 3000 ms)
           MaxRADelay,   \* MAX_RA_DELAY_TIME       (trace: 500 ms)
           BackoffUnit,  \* receive timeout back-off unit (trace: 50 ms)
-          Retries,      \* consecutive receive timeouts that end the session (5)
-          InitCap       \* MAX_INITIAL_RTR_ADVERT_INTERVAL (trace: 16000 ms): earliest second periodic request
+          Retries       \* consecutive receive timeouts that end the session (5)
+          \* (InitCap, InitCount, Sec come from Waits: 16000 ms, 3, 1000 ms in traces)
 
 ALLNODES == "allnodes"
 UNSPEC   == "unspec"
@@ -28,15 +28,21 @@ UNSPEC   == "unspec"
 CounterNames == {"u", "m", "txerr", "inv", "rx"}
 ZeroCnt == [c \in CounterNames |-> 0]
 
-\* Initial monitor state for one scenario.
-ReqInit(unicast, cfglife, monitorMode, strictMc) ==
-  [ unicast  |-> unicast,      \* unicast_only configured
-    strictMc |-> strictMc,     \* MinRtrAdvInterval exceeds the scenario horizon: after the loop's first request no
-                               \* periodic trigger can occur, so every multicast RA must be explained by an RS from ::
+\* Initial monitor state for one scenario. c = [unicast, cfglife, mon, strict, quiet, miniv, maxiv]
+ReqInit(c) ==
+  [ unicast  |-> c.unicast,    \* unicast_only configured
+    miniv    |-> c.miniv,      \* Min/MaxRtrAdvInterval
+    maxiv    |-> c.maxiv,
+    quietRun |-> c.quiet,      \* no solicitation is ever sent in this scenario and MinRtrAdvInterval >= 2 MinDelay:
+                               \* multicast RA instants are then exactly the loop's request instants
+    prevReq  |-> -1,           \* previous request instant in a quiet run
+    strictMc |-> c.strict,     \* MinRtrAdvInterval exceeds the scenario horizon: after the loop's first request no
+                               \* periodic trigger can occur before InitCap, so every multicast RA must be explained
     dialT    |-> 0,            \* time of the last successful (re)initialisation
+    lastTrig |-> -1,           \* read time of the most recent multicast trigger (RS from ::)
     credit   |-> 0,            \* periodic requests not yet served (1 after each (re)initialisation)
-    cfglife  |-> cfglife,      \* configured default lifetime (s)
-    monmode  |-> monitorMode,  \* TRUE for a Monitor task (no RA may ever be sent)
+    cfglife  |-> c.cfglife,    \* configured default lifetime (s)
+    monmode  |-> c.mon,        \* TRUE for a Monitor task (no RA may ever be sent)
     k        |-> 0,            \* current connection id (0 = none open)
     cleaned  |-> {},           \* connection ids already cleaned up
     nW       |-> 0,            \* wcalls in the current session
@@ -79,7 +85,7 @@ Deadlines(m, T) ==
 OnDial(m, e) ==
   IF e.res # "ok" THEN m
   ELSE LET m1 == IF Up(m) THEN Flag(m, "c11-dial-while-connection-open") ELSE m IN
-       [m1 EXCEPT !.k = e.k, !.nW = 0, !.credit = 1, !.dialT = e.t, !.lastMc = -1, !.owedM = {}, !.owedU = <<>>, !.pend = <<>>,
+       [m1 EXCEPT !.k = e.k, !.nW = 0, !.credit = 1, !.dialT = e.t, !.lastTrig = -1, !.prevReq = -1, !.lastMc = -1, !.owedM = {}, !.owedU = <<>>, !.pend = <<>>,
                   !.faultAt = -1, !.reading = FALSE, !.nTO = 0, !.resumeAt = -1]
 
 OnDone(m, e) ==
@@ -117,7 +123,7 @@ OnIn(m, e) ==
        IF m.monmode THEN m1
        ELSE IF e.kind = "rs" THEN
             IF e.src = UNSPEC
-            THEN IF m1.unicast THEN m1 ELSE [m1 EXCEPT !.owedM = @ \cup {e.t}]
+            THEN IF m1.unicast THEN m1 ELSE [m1 EXCEPT !.owedM = @ \cup {e.t}, !.lastTrig = e.t]
             ELSE [m1 EXCEPT !.owedU = Append(@, [dst |-> e.src, t |-> e.t])]
        ELSE IF e.kind = "ra" THEN m1
        ELSE [m1 EXCEPT !.exp = Bump(@, "inv")]      \* other NDP type on an advertising interface
@@ -164,7 +170,13 @@ OnWCall(m, e) ==
             ELSE IF sure /\ m.nOpen > 0 THEN Flag(m, "c08-final-ra-overtakes-write-in-flight")
             ELSE IF mc /\ ~initial /\ ~finalCand /\ m.lastMc # -1 /\ e.t - m.lastMc < MinDelay
                  THEN Flag(m, "c06-multicast-spacing")
+            ELSE IF mc /\ ~initial /\ ~finalCand /\ m.quietRun /\ m.nW = 1 /\ e.t # m.dialT + MinDelay
+                 THEN Flag(m, "c05-c06-first-periodic-ra-not-at-min-delay")
+            ELSE IF mc /\ ~initial /\ ~finalCand /\ m.quietRun /\ m.nW >= 2
+                    /\ ~AllowedWait(m.nW - 2, m.miniv, m.maxiv, e.t - m.prevReq)
+                 THEN Flag(m, "c05-wait-outside-allowed-range")
             ELSE IF mc /\ ~initial /\ ~finalCand /\ m.strictMc /\ e.t - m.dialT < InitCap /\ m.owedM = {} /\ m.credit = 0
+                    /\ ~(m.lastTrig # -1 /\ e.t - m.lastTrig <= MinDelay)   \* a burst may legitimately get a second RA
                  THEN Flag(m, "c07-c09-multicast-ra-without-any-trigger")
             ELSE IF ~mc /\ oi = 0 THEN Flag(m, "c07-unsolicited-or-duplicate-unicast-ra")
             ELSE IF ~mc /\ e.t - m.owedU[oi].t >= MaxRADelay THEN Flag(m, "c07-unicast-ra-late")
@@ -174,6 +186,7 @@ OnWCall(m, e) ==
                 !.pend = IF used = 0 THEN @ ELSE DropAt(@, used),
                 !.lastMc = IF mc /\ ~finalCand THEN e.t ELSE @,
                 !.credit = IF mc /\ ~initial THEN 0 ELSE @,
+                !.prevReq = IF mc /\ ~finalCand THEN (IF m.nW <= 1 THEN m.dialT ELSE e.t) ELSE @,
                 !.owedM = IF mc THEN {} ELSE @,
                 !.owedU = IF ~mc /\ oi # 0 THEN DropAt(@, oi) ELSE @,
                 !.sureFinal = IF sure THEN @ + 1 ELSE @,
@@ -218,8 +231,10 @@ OnRelease(m, e) == [m EXCEPT !.nHeld = IF @ > 0 THEN @ - 1 ELSE 0]
 OnQuiet(m, e) ==
   LET m1 == Deadlines(m, e.t)
       m2 == IF m1.nOpen = 0 /\ m1.cancelAt = -1 /\ m1.obs # m1.exp THEN Flag(m1, "c07-counters-differ-from-transmissions-and-receptions") ELSE m1
-      m3 == IF Live(m2) /\ ~m2.reading /\ m2.resumeAt = -1 /\ m2.nHeld = 0 /\ m2.retAt = -1
-            THEN Flag(m2, "c09-listener-not-receiving") ELSE m2
+      m2b == IF Live(m2) /\ ~m2.unicast /\ ~m2.monmode /\ m2.lastMc # -1 /\ e.t - m2.lastMc > RoundSec(m2.maxiv) + MinDelay
+             THEN Flag(m2, "c05-unsolicited-multicast-ra-overdue") ELSE m2
+      m3 == IF Live(m2b) /\ ~m2b.reading /\ m2.resumeAt = -1 /\ m2.nHeld = 0 /\ m2.retAt = -1
+            THEN Flag(m2b, "c09-listener-not-receiving") ELSE m2b
   IN [m3 EXCEPT !.pend = <<>>]       \* nobody is between a forwarding read and its transmission
 
 \* The driver is about to let virtual time pass (only ever at a quiescent point).
